@@ -90,7 +90,7 @@ def run(ctx):
                        "the top rule and, from the start of up to 6 chunks, to 33 focus sub-rules (every other rule on a third of the texts); on every pair "
                        "the three real parsers are compared, on every %s-th short pair also the TLA+ semantics of grammar.pest. Non-trivial = a pair "
                        "on which the rule matches a non-empty prefix or fails after position 0." % (ntexts, "25" if quick else "10"))
-    lines = open(out).read().splitlines()
+    lines = nl_lines(out)
     os.remove(out)
     parts = []
     nparts = 12
